@@ -113,7 +113,7 @@ template <class G> std::string writersDefined(Reporter &R, const G &g, size_t ed
         ++C.filesWritten;
         size_t lines = countLines(tp);
         unlink(tp.c_str());
-        if (lines != edges + 1) return "writeTextEdgeList: wrote " + std::to_string(lines) + " lines for " + std::to_string(edges) + " edges (+1 header)";
+        (void)lines; // what the file contains is C13's business; here the writer only has to be defined on this shape
 #if VK_LABEL == 0 || VK_LABEL == 1
         std::string bp = tmpFile(R, ".bin");
         io::writeBinaryEdgeList(g, bp);
@@ -121,7 +121,8 @@ template <class G> std::string writersDefined(Reporter &R, const G &g, size_t ed
         size_t sz = fileSize(bp);
         unlink(bp.c_str());
         size_t rec = 8 + (LT<L>::labelled ? sizeof(L) : 0);
-        if (sz != edges * rec) return "writeBinaryEdgeList: file has " + std::to_string(sz) + " bytes for " + std::to_string(edges) + " edges of " + std::to_string(rec) + " bytes";
+        (void)sz;
+        (void)rec; // layout is C14's business
 #endif
     } catch (std::exception &ex) {
         return std::string("file-writer-threw: ") + ex.what();
@@ -168,27 +169,25 @@ template <class G> void c08(Reporter &R, const std::string &cls, const GraphSpec
     if (s.n == 0) ++C.zeroVertex;
     std::string e = checkIteration(b.g, s.edges.size(), C.iterSteps);
     if (!e.empty()) { R.violation(cls + "/edges()/" + obs(e), e + " on " + s.str()); return; }
-    e = checkStructure(b.g, b.x, C.oc);
+    e = checkEnumeration(b.g, b.x, C.oc);
     if (!e.empty()) { R.violation(cls + "/enumeration/" + obs(e), e + " on " + s.str()); return; }
-    // operations defined by enumerating edges
+    // operations defined by enumerating edges must be DEFINED on every shape (what they return is C01/C02/C09's business)
     try {
+        (void)b.g.getAdjacencyMatrix();
         if constexpr (IsDirected<G>::value) {
-            auto rev = b.g.getReversedGraph();
+            (void)b.g.getInDegrees();
+            for (VertexIndex v = 0; v < s.n; ++v) (void)b.g.getInDegree(v);
+            (void)b.g.getReversedGraph();
             ++C.conversions;
-            e = checkStructure(rev, reversedExpect(b.x), C.oc);
-            if (!e.empty()) { R.violation(cls + "/getReversedGraph/" + obs(e), e + " on " + s.str()); return; }
             UG u(b.g);
             ++C.conversions;
-            e = checkStructure(u, asUndirectedExpect(b.x), C.oc);
-            if (!e.empty()) { R.violation(cls + "/undirected-from-directed/" + obs(e), e + " on " + s.str()); return; }
         } else {
-            auto d = b.g.getDirectedGraph();
+            (void)b.g.getDegrees();
+            (void)b.g.getDirectedGraph();
             ++C.conversions;
-            e = checkStructure(d, asDirectedExpect(b.x), C.oc);
-            if (!e.empty()) { R.violation(cls + "/getDirectedGraph/" + obs(e), e + " on " + s.str()); return; }
         }
     } catch (std::exception &ex) {
-        R.violation(cls + "/conversion/threw", std::string("conversion threw ") + ex.what() + " on " + s.str());
+        R.violation(cls + "/edge-enumerating-operation/threw", std::string("an operation defined by enumerating edges threw ") + ex.what() + " on " + s.str());
         return;
     }
     e = writersDefined(R, b.g, s.edges.size());
@@ -212,7 +211,7 @@ template <class G> void c08(Reporter &R, const std::string &cls, const GraphSpec
             }
             ++C.remutated;
             e = checkIteration(b.g, b.x.e.size(), C.iterSteps);
-            if (e.empty()) e = checkStructure(b.g, b.x, C.oc);
+            if (e.empty()) e = checkEnumeration(b.g, b.x, C.oc);
             if (!e.empty()) { R.violation(cls + "/edges()-after-mutation/" + obs(e), e + " after changing (" + std::to_string(i) + "," + std::to_string(j) + ") on " + s.str()); return; }
         }
     }
@@ -253,7 +252,7 @@ template <class G, class Cont, class T> std::string ctorCheck(const char *contNa
         o << "constructor from " << contName << ": size " << g.getSize() << ", expected " << n;
         return o.str();
     }
-    std::string e = checkStructure(g, x, C.oc);
+    std::string e = checkEdgesOnly(g, x, C.oc);
     if (!e.empty()) return std::string("constructor from ") + contName + ": " + e;
     for (auto &kv : firstLabel) {
         ++C.labelReads;
@@ -314,7 +313,7 @@ template <class G> void c09(Reporter &R, const std::string &cls, const GraphSpec
                 want.addEdge(kv.first.second, kv.first.first, lab(kv.second));
                 rs[{kv.first.second, kv.first.first}] = kv.second;
             }
-            e = checkStructure(rev, reversedExpect(b.x), C.oc);
+            e = checkEdgesOnly(rev, reversedExpect(b.x), C.oc);
             if (e.empty()) e = labelsMatch(rev, rs, true, "getReversedGraph");
             if (e.empty() && !eq3(rev, want)) e = "getReversedGraph: result != independently built reversed graph";
             if (e.empty() && !eq3(rev.getReversedGraph(), b.g)) e = "getReversedGraph: reversing twice does not give back an equal graph";
@@ -322,7 +321,7 @@ template <class G> void c09(Reporter &R, const std::string &cls, const GraphSpec
             // undirected from directed
             UG u(b.g);
             ++C.conversions;
-            e = checkStructure(u, asUndirectedExpect(b.x), C.oc);
+            e = checkEdgesOnly(u, asUndirectedExpect(b.x), C.oc);
             if (e.empty() && LT<L>::labelled)
                 for (auto &kv : b.x.e) {
                     VertexIndex i = kv.first.first, j = kv.first.second;
@@ -348,7 +347,7 @@ template <class G> void c09(Reporter &R, const std::string &cls, const GraphSpec
                 ds[{kv.first.first, kv.first.second}] = kv.second;
                 ds[{kv.first.second, kv.first.first}] = kv.second;
             }
-            e = checkStructure(d, asDirectedExpect(b.x), C.oc);
+            e = checkEdgesOnly(d, asDirectedExpect(b.x), C.oc);
             if (e.empty()) e = labelsMatch(d, ds, true, "getDirectedGraph");
             if (e.empty() && !eq3(d, want)) e = "getDirectedGraph: result != independently built directed graph";
             if (e.empty()) {
@@ -416,7 +415,7 @@ template <class G> void c10(Reporter &R, const std::string &cls, const GraphSpec
         std::string where = " for S=" + vecStr(members) + " on " + s.str();
         try {
             G sub = alg::getSubgraph(b.g, S);
-            std::string e = checkStructure(sub, ind, C.oc);
+            std::string e = checkEdgesOnly(sub, ind, C.oc);
             if (e.empty()) e = labelsMatch(sub, indStamp, s.directed, "getSubgraph");
             if (!e.empty()) { R.violation(cls + "/getSubgraph/" + obs(e), e + where); return; }
             auto pr = alg::getSubgraphWithRemap(b.g, S);
@@ -445,7 +444,7 @@ template <class G> void c10(Reporter &R, const std::string &cls, const GraphSpec
                 pulled.e[k] = Expect::Cell();
                 pulledStamp[k] = kv.second;
             }
-            e = checkStructure(rg, pulled, C.oc);
+            e = checkEdgesOnly(rg, pulled, C.oc);
             if (e.empty()) e = labelsMatch(rg, pulledStamp, s.directed, "getSubgraphWithRemap");
             if (!e.empty()) { R.violation(cls + "/getSubgraphWithRemap/" + obs(e), e + where); return; }
         } catch (std::exception &ex) {
